@@ -202,8 +202,8 @@ class Crate:
                 out.append(info.selfty or '?')
             else:
                 k = sg.find('<')
-                out.append(sg[:k] if k > 0 else sg)
-        return out, info
+                out.append(sg[:k] if k >= 0 else sg)
+        return [o for o in out if o], info
 
     def _index(self):
         for mir in self.mirs:
@@ -357,10 +357,10 @@ class Explorer:
                 model = None
                 if self.smt.check() == z3.sat:
                     model = self.smt.model()
-                self.findings.append(Finding(p.kind, p.msg, model, interp.where(), list(interp.decisions)))
+                self.findings.append(Finding(p.kind, p.msg, model, getattr(p, 'where', ''), list(interp.decisions)))
                 self.path_results.append(('panic', p.msg, list(interp.decisions)))
             except Unsupported as u:
-                self.unsupported.append((str(u), interp.where()))
+                self.unsupported.append((str(u), getattr(u, 'where', '')))
                 self.path_results.append(('unsupported', str(u), list(interp.decisions)))
             except PathInfeasible:
                 self.path_results.append(('infeasible', None, list(interp.decisions)))
@@ -492,7 +492,7 @@ class Interp:
         if c is not None:
             return copy_val(c)
         v = self._eval_const(text, frame)
-        if '<' not in text or 'T' not in text:
+        if '<' not in text and 'promoted[' not in text:
             self.const_cache[text] = v
         return copy_val(v)
 
@@ -536,7 +536,17 @@ class Interp:
                  'EPSILON': sys.float_info.epsilon, 'MAX': sys.float_info.max, 'MIN': -sys.float_info.max,
                  'consts::PI': math.pi}
             return Sc('f64', S.f2b(d[m.group(1)]))
-        if t.startswith('ZeroSized') or t.startswith('PhantomData'):
+        if t.endswith('SizedTypeProperties>::ALIGN'):
+            return Sc('usize', 8)
+        if t.startswith('ZeroSized'):
+            zt = t.split(':', 1)[1].strip() if ':' in t else ''
+            if zt.startswith('{closure@'):
+                return Agg('closure:' + zt, None, [])
+            m2 = re.match(r'^(?:for<[^>]*> )?(?:unsafe )?(?:extern "[^"]*" )?fn\(.*\{(.*)\}$', zt)
+            if m2:
+                return FnV(m2.group(1))
+            return UNIT
+        if t.startswith('PhantomData'):
             return UNIT
         if t.startswith('{alloc') or t.startswith('{transmute') or t.startswith('Indirect'):
             raise Unsupported('memory-dump constant %s' % t[:40])
@@ -548,7 +558,8 @@ class Interp:
         nsegs = []
         for s in split_path(t):
             k = s.find('<')
-            nsegs.append(s[:k] if k > 0 else s)
+            nsegs.append(s[:k] if k >= 0 else s)
+        nsegs = [x for x in nsegs if x]
         last = nsegs[-1]
         if last.startswith('promoted[') or last.isupper() or re.match(r'^[A-Z][A-Z0-9_]*$', last) or last.startswith('{constant'):
             r = self.crate.resolve(nsegs)
@@ -558,7 +569,8 @@ class Interp:
                 if body.kind == 'const':
                     if body.const_value is not None and not body.blocks:
                         return self.eval_operand(body.const_value, frame)
-                    return self.call_body(mir, name, body, [], self.bind_generics(mir, name, info, t, frame))
+                    env = frame.tyenv if (frame is not None and last.startswith('promoted[')) else self.bind_generics(mir, name, info, t, frame)
+                    return self.call_body(mir, name, body, [], env)
             if last == 'STATIC_MAX_LEVEL':
                 return Agg('LevelFilter', 0, [])   # logging off
             raise Unsupported('const item %s' % t)
@@ -829,6 +841,8 @@ class Interp:
                         if c.file == v.ty.split('@')[1]:
                             e = c
                 d = e.variants[v.variant][1]
+            if v.ty == 'Ordering':
+                return Sc('i8', d & 0xff)
             return Sc('isize', d & mask(64))
         if hasattr(v, 'discriminant'):
             return v.discriminant(self)
@@ -1198,7 +1212,14 @@ class Interp:
         if type(a) is Sc:
             return self.reinterpret(a, ty)
         if type(a) in (Slice, Ref, FnV, StrV):
+            if ty in ('usize', 'u64', 'isize'):
+                # pointer -> address (only used by rustc's inserted alignment / null checks): an aligned non-null constant
+                return Sc(ty, 0x10000)
             return a
+        if type(a) is Agg and len(a.fields) == 1 and type(a.fields[0]) in (Ref, Slice):
+            return a.fields[0]
+        if type(a) is Agg and len(a.fields) == 1 and type(a.fields[0]) is Agg and len(a.fields[0].fields) == 1 and type(a.fields[0].fields[0]) in (Ref, Slice):
+            return a.fields[0].fields[0]
         if type(a) is Agg:
             # newtype wrappers of one word: ClosureIdx(DefaultKey(KeyData{idx,version}))
             return self.reinterpret(self.flatten_word(a), ty)
@@ -1258,20 +1279,33 @@ class Interp:
 
     def bind_generics(self, mir, name, info, callee_text, frame):
         """type environment for a call of `name` written as callee_text in frame"""
-        segs = split_path(callee_text)
-        args_impl, args_fn = [], []
-        if len(segs) >= 2:
-            args_impl = last_generics(segs[-2]) if not segs[-2].startswith('<') else []
-        args_fn = last_generics(segs[-1])
-        if not args_impl and not args_fn and not (segs[0].startswith('<') and info is not None and info.generics):
+        raw = split_path(callee_text)
+        # merge turbofish segments: ['Vec', '<u64>', 'len'] -> [('Vec', ['u64']), ('len', [])]
+        segs = []
+        for sg in raw:
+            if sg.startswith('<') and segs and not (len(segs) == 0):
+                if ' as ' in sg and not segs:
+                    segs.append((sg, []))
+                else:
+                    segs[-1] = (segs[-1][0], last_generics(sg))
+            elif sg.startswith('<'):
+                segs.append((sg, []))
+            else:
+                k = sg.find('<')
+                segs.append((sg[:k], last_generics(sg)) if k >= 0 else (sg, []))
+        args_fn = segs[-1][1] if segs else []
+        args_impl = segs[-2][1] if len(segs) >= 2 and not segs[-2][0].startswith('<') else []
+        traitq = raw[0].startswith('<') and ' as ' in raw[0]
+        if not args_impl and not args_fn and not (traitq and info is not None and info.generics):
             return None
         gi, gf = self.crate.generics_of_fn(mir, name, info)
         env = {}
-        if info is not None and info.generics and segs[0].startswith('<') and ' as ' in segs[0]:
+        if info is not None and info.generics and traitq:
             # <SelfTy<Args> as Trait>::method : bind impl generics positionally from the self type args
-            selft = segs[0][1:match_close(segs[0], 0)].split(' as ')[0].strip()
-            sargs = last_generics(split_path(strip_ref(selft))[-1])
-            for g, a in zip([x for x in info.selfargs], sargs):
+            selft = raw[0][1:match_close(raw[0], 0)]
+            selft = selft[:_top_as(selft)].strip()
+            sargs = last_generics(split_path(strip_ref(selft))[-1]) if not strip_ref(selft).startswith('[') else []
+            for g, a in zip(info.selfargs, sargs):
                 if g in info.generics:
                     env[g] = self.subst(a, frame)
         if args_impl and info is not None:
@@ -1301,6 +1335,10 @@ class Interp:
             raise Unsupported('call depth > 400')
         try:
             return self.run(fr)
+        except (PanicReached, Unsupported) as e:
+            if not hasattr(e, 'where'):
+                e.where = self.where()
+            raise
         finally:
             self.stack.pop()
 
@@ -1450,6 +1488,15 @@ class Interp:
                 mname = strip_generics(rest[2:]) if rest.startswith('::') else rest
                 mname = split_path(mname)[-1]
                 st = strip_ref(selft)
+                if re.fullmatch(r'[A-Z][A-Za-z0-9]*', st) and args and st not in self.layouts.structs and st not in self.layouts.enums:
+                    # unresolved generic parameter: dispatch on the runtime type of the receiver
+                    a0 = args[0]
+                    if type(a0) is Ref:
+                        a0 = a0.cont[a0.key]
+                    if type(a0) is Sc:
+                        st = a0.t
+                    elif type(a0) is Agg:
+                        st = a0.ty.split('@')[0]
                 sh = '[]' if st.startswith('[') else type_head(st)
                 if st.startswith('{closure@'):
                     return None
@@ -1459,7 +1506,7 @@ class Interp:
         segs = []
         for s in split_path(callee):
             k = s.find('<')
-            segs.append(s[:k] if k > 0 else s)
+            segs.append(s[:k] if k >= 0 else s)
         segs = [s for s in segs if s]
         return self.crate.resolve(segs)
 
